@@ -18,7 +18,7 @@ def flow(prefix, profiles, variant, quick, thorough, **kw):
 
 
 C01_PROFILES = ["general", "rowhigh-any", "multirow", "turned", "polarity", "dense", "obstruction", "big"]
-COMB = ["comb"]
+COMB = ["comb", "staggered"]
 CROWDED = ["crowded"]
 FARAWAY = ["faraway"]
 
@@ -89,7 +89,7 @@ PLANS = {
                 + [R("h_dp", "asan", "c05.opt", 6000, 30000), R("h_dp", "fast", "c05.opt", 0, 60000), R("h_dp", "asan", "c05.reorder", 12000, 40000), R("h_dp", "fast", "c05.reorder", 30000, 200000)]
                 + flow("c05", CROWDED, "asan", 400, 2000) + flow("c05", CROWDED, "fast", 0, 10000)
                 + flow("c05", FARAWAY, "asan", 2000, 8000) + flow("c05", FARAWAY, "fast", 0, 20000)
-                + flow("c05", ["big"], "asan", 1000, 4000),
+                + flow("c05", ["big"], "asan", 1000, 4000) + flow("c05", ["staggered"], "asan", 600, 3000),
     },
     "C07": {
         "level": "exploration",
@@ -123,7 +123,7 @@ PLANS = {
         "runs": flow("c11.relegalize", ["general", "rowhigh", "obstruction", "polarity", "dense"], "asan", 3000, 10000)
                 + [R("h_flow", "asan", "c11.constructed", 10000, 40000)]
                 + flow("c11.relegalize", CROWDED, "asan", 600, 3000) + flow("c11.relegalize", ["big20"], "asan", 2000, 8000)
-                + flow("c11.relegalize", ["comb"], "asan", 600, 3000)
+                + flow("c11.relegalize", COMB, "asan", 600, 3000)
                 + flow("c11.relegalize", ["general", "rowhigh", "obstruction", "polarity", "dense"], "fast", 0, 20000)
                 + [R("h_flow", "fast", "c11.constructed", 0, 60000)],
     },
@@ -215,7 +215,7 @@ PLANS = {
                 "cells in none, coarse capacities sum to the same total, spread coordinates finite and inside the cell's bin; the "
                 "library's own check() asserts are live; non-trivial = >= 1 history step applied; distinct = grid shape, obstruction, "
                 "margin, cost model, transport, history length, levels visited",
-        "assumptions": ["free-segment oracle of harness/circ.hpp"],
+        "assumptions": ["free-segment oracle of harness/circ.hpp", "the area of a single cell stays below 2^30 (cell demands are 32-bit integers in the density legalizer)"],
         "runs": [R("h_density", "asan", "c16.history", 2500, 30000), R("h_density", "fast", "c16.history", 0, 120000)],
     },
     "C17": {
